@@ -27,7 +27,7 @@
      Snap_snapshot_hyp       Snap + the cache's history is published + pub_functional  ->  snapshot_hyp
      C08_converge_no_snapshot_hyp   converge_reachable without the hypothesis snapshot_hyp
      answer_truthful_reset / answer_truthful_delta   the wire-level truthful cache of Rtr/CacheSpec.v answers truthfully
-     response_received_fun   the response a sync received is a function of the world (used by the example)
+     response_received_fun / _det   the response a sync received is a function of the world (used by the examples)
      snapshot_example        a concrete run with a successful truthful sync after which Snap holds with req_sess = false
 
    Remarks on the statement (differences from the first sketch, all forced by the model):
@@ -182,6 +182,25 @@ Proof.
   destruct (collect n (cr_world w1 cr) [] [] []) as [[[[e a] b] c0]|] eqn:Ec; [|discriminate].
   pose proof (collected_collect _ _ _ _ _ _ _ _ Hc _ _ Er Ht _ _ Ec) as Eq. injection Eq as -> -> -> ->.
   intros E. injection E as <-. reflexivity.
+Qed.
+
+(* hence truthful_step below, which quantifies over every response the sync received, speaks about THE response *)
+Lemma collected_collect_ex w v4 v6 ks wa v4' v6' ks' : collected w v4 v6 ks wa v4' v6' ks' ->
+  forall eod wb, receive_pdu c_RTR_RECV_TIMEOUT wa = Ok (inr eod) wb -> nthb eod 1 = c_EOD ->
+  exists n, collect n w v4 v6 ks = Some (eod, v4', v6', ks').
+Proof.
+  induction 1 as [w v4 v6 ks|w w1 w2 p v4 v6 ks v4' v6' ks' Er Hs _ IH]; intros eod wb Ee Ht.
+  - exists 1%nat. cbn [collect]. rewrite Ee, (storable_eod _ Ht). reflexivity.
+  - destruct (IH eod wb Ee Ht) as (n & En). exists (S n). cbn [collect]. rewrite Er, Hs. exact En.
+Qed.
+
+Theorem response_received_det fuel w cr eod v4 v6 ks cr' eod' v4' v6' ks' :
+  response_received fuel w cr eod v4 v6 ks -> response_received fuel w cr' eod' v4' v6' ks' ->
+  (cr, eod, v4, v6, ks) = (cr', eod', v4', v6', ks').
+Proof.
+  intros (w1 & wa & wb & E1 & _ & Hc & Er & Ht) R2.
+  destruct (collected_collect_ex _ _ _ _ _ _ _ _ Hc _ _ Er Ht) as (n & En).
+  apply (response_received_fun _ _ _ _ _ _ _ R2 n). unfold response_of. rewrite E1, En. reflexivity.
 Qed.
 
 (* ---------- set arithmetic: a difference applied to any arrangement of the old set ---------- *)
@@ -501,18 +520,33 @@ Proof.
   split; [apply (Snap_snapshot_hyp ex_pub); [exact HS|exact ex_pub_hist6|exact ex_pub_functional]|vm_compute; reflexivity].
 Qed.
 
-(* the closed-loop theorem without snapshot_hyp, instantiated: all its hypotheses hold for lp_est and ex_cache6 *)
+(* the closed-loop theorem without snapshot_hyp, instantiated: all its hypotheses hold for that world (= lp_est, see
+   snapshot_example) and ex_cache6.  (Stated for run_fsm 3 100 snap_w0: converting a hypothesis about lp_est into one about
+   its unfolding makes the kernel evaluate the run lazily.) *)
 Example converge_no_snapshot_hyp_example :
-  exists m, (m <= 8)%nat /\ converged ex_cache6 (loop_bound (sk lp_est)) lp_est (run_with_cache m 4 ex_cache6 lp_est).
+  let w := run_fsm 3 100 snap_w0 in
+  exists m, (m <= 8)%nat /\ converged ex_cache6 (loop_bound (sk w)) w (run_with_cache m 4 ex_cache6 w).
 Proof.
-  destruct converge_loop_example_established as ((Hc & _ & Hl & Hv & _ & Hf & Hfd & _ & Hon & Hol & Hs & Hev & _) & _).
-  apply (C08_converge_no_snapshot_hyp ex_pub ex_cache6 3 100000 3 100 3600 7200 600 0 [] [] _ (repeat true 17) [] []);
-    try (constructor; fail); try reflexivity; try assumption.
-  - script_ok.
+  cbv zeta. unfold snap_w0.
+  assert (He : Forall ev_ok [EvData (ex_CR ++ ex_PA ++ ex_EOD); EvWait 100000]) by script_ok.
+  pose proof (C08_converge_no_snapshot_hyp ex_pub ex_cache6 3 100000 3 100 3600 7200 600 0 [] []
+                [EvData (ex_CR ++ ex_PA ++ ex_EOD); EvWait 100000] (repeat true 17) [] []
+                eq_refl He (NoDup_nil _) (NoDup_nil _) eq_refl eq_refl) as X.
+  cbv zeta in X. apply X.
   - exact snap_w0_truthful.
   - exact ex_pub_hist6.
   - exact ex_pub_functional.
-  - lia.
+  - exact ex_cache6_ok.
+  - vm_compute; reflexivity.
+  - vm_compute; reflexivity.
+  - vm_compute; lia.
+  - intros k old [E|[E|[]]]; inversion E; subst; vm_compute; lia.
+  - match goal with |- forall k, nth k (opens ?w) true = true =>
+      let E := fresh in assert (E : opens w = repeat true 16) by (vm_compute; reflexivity); rewrite E; exact all_true_16 end.
+  - vm_compute; lia.
+  - vm_compute; reflexivity.
+  - vm_compute; reflexivity.
+  - vm_compute; reflexivity.
 Qed.
 
 (* (B) a Reset Query answered (serial 5 = {A}), the refresh timer, a Serial Query answered with the delta +B (serial 6):
@@ -575,6 +609,7 @@ Qed.
 
 Print Assumptions fsm_step_D.
 Print Assumptions response_received_fun.
+Print Assumptions response_received_det.
 Print Assumptions fsm_step_Snap.
 Print Assumptions fsm_iter_Snap.
 Print Assumptions snapshot_reachable.
